@@ -36,6 +36,9 @@ pub enum Tamper {
   /// replay record `rec` at the end of the stream
   ReplayRecord { rec: u8 },
   InjectRecord { rec: u8, len: u16 },
+  /// hand one of the client's own data records back to the client (taken from the same run), if
+  /// possible the one whose record number equals the number of records the server has sent
+  ReflectRecord { rec: u8 },
 }
 
 #[derive(Clone, Debug, Serialize, Deserialize)]
@@ -46,6 +49,9 @@ pub struct Case {
   pub steps: Vec<Step>,
   pub tamper: Tamper,
   pub chunks: Vec<u16>,
+  /// every message carries the marker of message 0 (equal plaintexts for equal shapes)
+  #[serde(default)]
+  pub same_marker: bool,
 }
 
 fn size_strategy(big: bool) -> impl Strategy<Value = u32> + Clone {
@@ -85,6 +91,7 @@ fn tamper_strategy() -> impl Strategy<Value = Tamper> + Clone {
     1 => (0u8..6).prop_map(|rec| Tamper::SwapRecords { rec }),
     1 => (0u8..6).prop_map(|rec| Tamper::ReplayRecord { rec }),
     1 => (0u8..6, 16u16..200).prop_map(|(rec, len)| Tamper::InjectRecord { rec, len }),
+    2 => (0u8..6).prop_map(|rec| Tamper::ReflectRecord { rec }),
   ]
 }
 
@@ -107,7 +114,7 @@ fn case_strategy_sized(big: bool) -> impl Strategy<Value = Case> {
     tamper_strategy(),
     prop::collection::vec(prop_oneof![1 => Just(u16::MAX), 2 => 1u16..200, 1 => 200u16..9000], 0..10),
   )
-    .prop_map(|(mech, seed, hb, steps, tamper, chunks)| Case { mech, seed, hb, steps, tamper, chunks })
+    .prop_map(|(mech, seed, hb, steps, tamper, chunks)| Case { mech, seed, hb, steps, tamper, chunks, same_marker: false })
 }
 
 pub fn marker(seed: u16, msg: usize, frame: usize) -> Vec<u8> {
@@ -173,6 +180,9 @@ struct Outcome {
   wire_to_client: Vec<u8>,
   wire_to_server: Vec<u8>,
   handshake_len_to_client: usize,
+  handshake_len_to_server: usize,
+  /// a client record was handed back to the client (ReflectRecord)
+  reflected: bool,
   ticks_emitted: usize,
   all_markers: Vec<Vec<u8>>,
   applied: usize,
@@ -180,6 +190,10 @@ struct Outcome {
 
 /// Runs the case; `mitm` rewrites the server→client stream (a = client in the Pair).
 fn execute(c: &Case, mitm: Option<Mitm>) -> Result<Outcome, Violation> {
+  execute_with(c, mitm, None)
+}
+
+fn execute_with(c: &Case, mitm: Option<Mitm>, reflect: Option<u8>) -> Result<Outcome, Violation> {
   let (s, cl) = specs(c);
   // a = client (target of the MITM), b = server
   let mut p = Pair::with_mitm(cl.build().map_err(|e| Violation::new("engine_build", e))?, s.build().map_err(|e| Violation::new("engine_build", e))?, mitm);
@@ -188,6 +202,7 @@ fn execute(c: &Case, mitm: Option<Mitm>) -> Result<Outcome, Violation> {
     return Err(Violation::new("honest_handshake_failed", format!("{}: client {:?} server {:?}", c.mech.name(), p.a.apps, p.b.apps)).with("mech", c.mech.name()));
   }
   let hs_len = p.orig_to_a.len();
+  let hs_len_to_server = p.a.sent.len();
   let mut o = Outcome {
     delivered_to_client: vec![],
     delivered_to_server: vec![],
@@ -198,6 +213,8 @@ fn execute(c: &Case, mitm: Option<Mitm>) -> Result<Outcome, Violation> {
     wire_to_client: vec![],
     wire_to_server: vec![],
     handshake_len_to_client: hs_len,
+    handshake_len_to_server: hs_len_to_server,
+    reflected: false,
     ticks_emitted: 0,
     all_markers: vec![],
     applied: 0,
@@ -218,7 +235,7 @@ fn execute(c: &Case, mitm: Option<Mitm>) -> Result<Outcome, Violation> {
   for st in &c.steps {
     match st {
       Step::Send { from_server, msg } => {
-        let (fb, rf) = build_msg(c.seed, msg_no, msg);
+        let (fb, rf) = build_msg(c.seed, if c.same_marker { 0 } else { msg_no }, msg);
         for (i, _) in rf.iter().enumerate() {
           o.all_markers.push(marker(c.seed, msg_no, i));
         }
@@ -238,7 +255,7 @@ fn execute(c: &Case, mitm: Option<Mitm>) -> Result<Outcome, Violation> {
         let mut batch = Vec::new();
         let mut rfs = Vec::new();
         for m in msgs {
-          let (fb, rf) = build_msg(c.seed, msg_no, m);
+          let (fb, rf) = build_msg(c.seed, if c.same_marker { 0 } else { msg_no }, m);
           for (i, _) in rf.iter().enumerate() {
             o.all_markers.push(marker(c.seed, msg_no, i));
           }
@@ -288,6 +305,20 @@ fn execute(c: &Case, mitm: Option<Mitm>) -> Result<Outcome, Violation> {
   }
   p.flush_mitm_tail();
   drain(&mut p, &mut chunk_i);
+  if let Some(r) = reflect {
+    let mine = records(&p.a.sent, hs_len_to_server);
+    let from_server = records(&p.orig_to_a, hs_len).len();
+    if !mine.is_empty() && p.a.open {
+      // the record whose number the client expects next from the server, if the client has
+      // written that many itself; any other of its records otherwise
+      let k = if mine.len() > from_server { from_server } else { r as usize % mine.len() };
+      let (s0, n0) = mine[k];
+      let bytes = p.a.sent[s0..s0 + n0].to_vec();
+      p.inject_to_a(bytes);
+      o.reflected = true;
+      drain(&mut p, &mut chunk_i);
+    }
+  }
   o.delivered_to_client = p.a.delivered();
   o.delivered_to_server = p.b.delivered();
   o.client_error = p.a.apps.iter().find_map(|e| if let AppEvt::Error(s) = e { Some(s.clone()) } else { None });
@@ -305,7 +336,7 @@ fn tamper_ops(t: &Tamper, stream: &[u8], from: usize) -> Vec<MitmOp> {
   }
   let pick = |r: u8| recs[r as usize % recs.len()];
   match t {
-    Tamper::None => vec![],
+    Tamper::None | Tamper::ReflectRecord { .. } => vec![],
     Tamper::FlipInRecord { rec, at, bit } => {
       let (s, n) = pick(*rec);
       vec![MitmOp::Flip { pos: s + (*at as usize % n), bit: *bit }]
@@ -411,6 +442,31 @@ fn prop_case(c: &Case, rec: &mut CaseRec) -> Result<(), Violation> {
       rec.label("tamper_skipped_heartbeat_in_stream");
       return Ok(());
     }
+    if let Tamper::ReflectRecord { rec: r } = &c.tamper {
+      let t = execute_with(c, None, Some(*r))?;
+      if !t.reflected {
+        rec.label("tamper_had_no_record_to_hit");
+        return Ok(());
+      }
+      rec.label("own_record_reflected");
+      let (sent, got) = (&t.accepted_to_client, &t.delivered_to_client);
+      let is_prefix = got.len() <= sent.len() && got.iter().zip(sent.iter()).all(|(a, b)| a == b);
+      if !is_prefix {
+        return Err(
+          Violation::new("tampering_delivered", format!("{} {:?}: one of the client's own records was handed back to it; client delivered {:?}, server sent {:?}", mech, c.tamper, shape(got), shape(sent)))
+            .with("mech", mech)
+            .with("tamper", "ReflectRecord"),
+        );
+      }
+      if t.client_error.is_none() {
+        return Err(
+          Violation::new("tampering_undetected", format!("{} {:?}: one of the client's own records was handed back to it and the connection stayed up ({} messages delivered)", mech, c.tamper, got.len()))
+            .with("mech", mech)
+            .with("tamper", "ReflectRecord"),
+        );
+      }
+      return Ok(());
+    }
     let ops = tamper_ops(&c.tamper, &honest.wire_to_client, honest.handshake_len_to_client);
     if ops.is_empty() {
       rec.label("tamper_had_no_record_to_hit");
@@ -463,7 +519,27 @@ fn prop_twin(c: &TwinCase, rec: &mut CaseRec) -> Result<(), Violation> {
     steps: vec![Step::Send { from_server: true, msg: MsgSpec { frames: vec![c.size as u32 + 32] } }, Step::Drain],
     tamper: Tamper::None,
     chunks: vec![],
+    same_marker: false,
   };
+  // the same plaintext as record 1 of either direction of one session
+  let both = Case {
+    steps: vec![
+      Step::Send { from_server: true, msg: MsgSpec { frames: vec![c.size as u32 + 32] } },
+      Step::Send { from_server: false, msg: MsgSpec { frames: vec![c.size as u32 + 32] } },
+      Step::Drain,
+    ],
+    same_marker: true,
+    ..case.clone()
+  };
+  let o = execute(&both, None)?;
+  let down = &o.wire_to_client[o.handshake_len_to_client..];
+  let up = &o.wire_to_server[o.handshake_len_to_server..];
+  if down == up && !down.is_empty() {
+    return Err(
+      Violation::new("ciphertext_repeats_across_directions", format!("{}: the same {}-byte plaintext sent as the first message of either direction of one session produces identical bytes", c.mech.name(), c.size as u32 + 32))
+        .with("mech", c.mech.name()),
+    );
+  }
   let a = execute(&case, None)?;
   let b = execute(&case, None)?;
   let da = &a.wire_to_client[a.handshake_len_to_client..];
@@ -479,7 +555,7 @@ fn prop_twin(c: &TwinCase, rec: &mut CaseRec) -> Result<(), Violation> {
 
 pub fn run(run: &mut Run) {
   run.level = "fault_enumeration";
-  run.rule = "cases = CURVE / NOISE_XX engine pairs taken through an honest handshake, then a generated sequence of steps (single messages either direction, 2..7-message batches through frame_batch, heartbeat ticks with HEARTBEAT_IVL=1ms when enabled, drains with generated chunking; frame sizes 32..300, up to 5000, and the 64 KiB neighbourhood {65000..70000,131072,200000}), run once untouched and once with one record-level tamper on the server->client ciphertext stream (bit flip / truncate inside a record, drop / duplicate / swap / replay / inject a record). Every frame embeds a 32-byte marker. Twin sessions: same keys, same plaintext, twice. Non-trivial = a message or batch larger than 255 bytes or a tamper applied. Distinct = hash of the case".into();
+  run.rule = "cases = CURVE / NOISE_XX engine pairs taken through an honest handshake, then a generated sequence of steps (single messages either direction, 2..7-message batches through frame_batch, heartbeat ticks with HEARTBEAT_IVL=1ms when enabled, drains with generated chunking; frame sizes 32..300, up to 5000, and the 64 KiB neighbourhood {65000..70000,131072,200000}), run once untouched and once with one record-level tamper on the server->client ciphertext stream (bit flip / truncate inside a record, drop / duplicate / swap / replay / inject a record), or with one of the client's own records of the same run handed back to the client. Twin sessions also send the same plaintext as the first message of both directions of one session. Every frame embeds a 32-byte marker. Twin sessions: same keys, same plaintext, twice. Non-trivial = a message or batch larger than 255 bytes or a tamper applied. Distinct = hash of the case".into();
   run.assumptions = vec![
     "sans-IO engine pairs; record boundaries for tampering are read from the untampered run (2-byte length prefix)".into(),
     "the tamperer has no keys; mutations are applied only to the data phase of the server->client direction".into(),
